@@ -1,11 +1,16 @@
 #!/bin/bash
-# Builds the Coq development, extracts the model and compiles the OCaml runner.
+# Builds the Coq development (all of it, or with "runner" only what the
+# extracted model runner needs), extracts the model and compiles the OCaml runner.
 set -e
 cd /verif/coq
-[ -f Makefile ] || coq_makefile -f _CoqProject -o Makefile >/dev/null
-timeout 3000 make -j16 2>&1 | grep -v "^COQDEP\|^COQC\|^CAMLDEP" || true
+[ -f Makefile ] && [ Makefile -nt _CoqProject ] || coq_makefile -f _CoqProject -o Makefile >/dev/null
+if [ "$1" = "runner" ]; then
+  timeout 3000 make -j16 Model/Run.vo 2>&1 | grep -v "^COQDEP\|^COQC\|^CAMLDEP\|^make" || true
+else
+  timeout 3000 make -j16 2>&1 | grep -v "^COQDEP\|^COQC\|^CAMLDEP" || true
+fi
 test -f Model/Run.vo
-if [ ! -f /verif/runner/model_runner ] || [ Model/Run.vo -nt /verif/runner/model_runner ]; then
+if [ ! -x /verif/runner/model_runner ] || [ Model/Run.vo -nt /verif/runner/model_runner ]; then
   (cd Extract && timeout 600 coqc -Q .. Errv Extract.v >/dev/null)
   cp Extract/runner.ml Extract/runner.mli /verif/runner/
   (cd /verif/runner && ocamlfind ocamlopt -O3 -w -a runner.mli runner.ml main.ml -o model_runner 2>&1 | grep -v "options -O3 is only relevant" || true)
